@@ -28,7 +28,33 @@ pub fn plan_runs(prop: Prop, tier: &str) -> u64 {
     }
 }
 
+/// One run in `soak_every` is a soak run: one of its exchanges, chosen by the PRNG, is repeated 300 or
+/// 65,540 times in a row (C04 has its own soak runs: the same message delivered up to 70,001 times).
+fn soak_every(prop: Prop) -> u64 {
+    match prop {
+        Prop::C04 => 0,
+        Prop::C05 => 4096,
+        Prop::C07 => 64,
+        Prop::C09 => 1024,
+        Prop::C10 => 256,
+        Prop::C17 => 512,
+        Prop::C19 => 128,
+    }
+}
+
 pub fn gen(prop: Prop, seed: u64, run: u64, tier: &str) -> Vec<Step> {
+    let mut steps = gen_plain(prop, seed, run, tier);
+    let k = soak_every(prop);
+    if k > 0 && run % k == 3 && !steps.is_empty() {
+        let mut r = crate::prng::Rng::new(seed, run, 97);
+        let i = r.usize_below(steps.len());
+        let times = if r.chance(2, 3) { 65_540 } else { 300 };
+        steps[i] = Step::Repeat { times, step: Box::new(steps[i].clone()) };
+    }
+    steps
+}
+
+fn gen_plain(prop: Prop, seed: u64, run: u64, tier: &str) -> Vec<Step> {
     match prop {
         Prop::C04 => crate::c04::gen(seed, run, tier),
         Prop::C05 => crate::c05::gen(seed, run, tier),
@@ -41,6 +67,12 @@ pub fn gen(prop: Prop, seed: u64, run: u64, tier: &str) -> Vec<Step> {
 }
 
 fn account(prop: Prop, step: &Step, dev: &Device, stats: &mut Stats) {
+    if let Step::Repeat { times, step } = step {
+        stats.probe("soak_exchange_repeated");
+        stats.probe_n("soak_repetitions", *times);
+        stats.real_calls += *times - 1;
+        return account(prop, step, dev, stats);
+    }
     match prop {
         Prop::C04 => crate::c04::account(step, &dev.last_outcome, stats),
         Prop::C05 => crate::c05::account(step, &dev.last_outcome, stats),
